@@ -268,6 +268,11 @@ pub(crate) struct ChanSt {
 
 pub(crate) struct Listener {
     pub behaviour: ConnectBehaviour,
+    /// behaviour of the 2nd, 3rd, ... connection attempt to this address (the last entry stays in force);
+    /// empty = `behaviour` for every attempt
+    pub later: Vec<ConnectBehaviour>,
+    /// connection attempts seen so far
+    pub attempts: usize,
     pub factory: Option<PeerFactory>,
 }
 
@@ -821,7 +826,15 @@ impl Sim {
     }
 
     pub fn add_listener(&self, ip: IpAddr, port: u16, behaviour: ConnectBehaviour, factory: Option<PeerFactory>) {
-        self.k.lock().listeners.insert((ip, port), Listener { behaviour, factory });
+        self.k.lock().listeners.insert((ip, port), Listener { behaviour, later: Vec::new(), attempts: 0, factory });
+    }
+
+    /// An address whose behaviour changes from one connection attempt to the next (a server that goes
+    /// away after it has answered once): `later[i]` applies to attempt i + 2, the last entry from then on.
+    pub fn set_later_behaviours(&self, ip: IpAddr, port: u16, later: Vec<ConnectBehaviour>) {
+        if let Some(l) = self.k.lock().listeners.get_mut(&(ip, port)) {
+            l.later = later;
+        }
     }
 
     pub fn set_default_connect(&self, b: ConnectBehaviour) {
@@ -1041,7 +1054,18 @@ pub(crate) fn connect(addr: &SocketAddr, timeout_ns: u64) -> std::io::Result<(K,
     }
     let t_start = g.now;
     let seq = g.next_seq();
-    let beh = g.listeners.get(&(addr.ip(), addr.port())).map(|l| l.behaviour).unwrap_or(g.default_connect);
+    let default_connect = g.default_connect;
+    let beh = match g.listeners.get_mut(&(addr.ip(), addr.port())) {
+        Some(l) => {
+            l.attempts += 1;
+            if l.attempts >= 2 && !l.later.is_empty() {
+                l.later[(l.attempts - 2).min(l.later.len() - 1)]
+            } else {
+                l.behaviour
+            }
+        }
+        None => default_connect,
+    };
     g.log(me, "connect", hash_bytes(addr.to_string().as_bytes()), timeout_ns);
     let (wait, outcome): (u64, Result<(), E>) = match beh {
         ConnectBehaviour::Accept { latency_ns } if latency_ns <= timeout_ns => (latency_ns, Ok(())),
